@@ -204,6 +204,9 @@ class EnergyHistories(common.Suite):
     def oracle(self, case, obs):
         out = []
         style = case["style"]
+        if "exception" in obs and "exception_at" not in obs:
+            # raised before the first trial (building the simulation): nothing of the per-trial observation exists
+            return [(f"exception:{case['ens']}:setup:{obs['exception']}", obs.get("message", "") + obs.get("trace", "")[-500:])]
         if "exception" in obs:
             k = obs["exception_at"]
             ts = c03.trial_sig(case, k)
@@ -339,6 +342,9 @@ class EnergyRunBoundaries(EnergyHistories):
     def oracle(self, case, obs):
         out = []
         style = case["style"]
+        if "exception" in obs and "exception_at" not in obs:
+            # raised before the first trial (building the simulation): nothing of the per-trial observation exists
+            return [(f"exception:{case['ens']}:setup:{obs['exception']}", obs.get("message", "") + obs.get("trace", "")[-500:])]
         if "exception" in obs:
             k = obs["exception_at"]
             ts = c03.trial_sig(case, k)
